@@ -313,8 +313,26 @@ void OSSLRSAPrivateKey::createOSSLKey()
 	BIGNUM* bn_e = OSSL::byteString2bn(e);
 	BIGNUM* bn_d = OSSL::byteString2bn(d);
 
+	// The key is unusable when the modulus or the public exponent is
+	// missing; OpenSSL crashes on an RSA object that has no modulus
+	if (!RSA_set0_key(rsa, bn_n, bn_e, bn_d))
+	{
+		ERROR_MSG("Could not set the RSA private key components");
+
+		BN_free(bn_n);
+		BN_free(bn_e);
+		BN_clear_free(bn_d);
+		BN_clear_free(bn_p);
+		BN_clear_free(bn_q);
+		BN_clear_free(bn_dmp1);
+		BN_clear_free(bn_dmq1);
+		BN_clear_free(bn_iqmp);
+		RSA_free(rsa);
+		rsa = NULL;
+
+		return;
+	}
 	RSA_set0_factors(rsa, bn_p, bn_q);
 	RSA_set0_crt_params(rsa, bn_dmp1, bn_dmq1, bn_iqmp);
-	RSA_set0_key(rsa, bn_n, bn_e, bn_d);
 }
 
